@@ -97,7 +97,9 @@ def identity(inp):
     except BaseException as e:  # noqa
         obs = ("raise", type(e).__name__)
         if obs[1] == "RTCMTypeError" and exp[0] == "ok":
-            obs = exp  # a defined type whose body does not fit: not an identity question
+            from spec import refdecode
+            if refdecode.lookup_definition(exp[1]) is not None:
+                obs = exp  # a defined type whose body does not fit: not an identity question
     return {"fails": exp != obs, "expected": exp, "observed": obs}
 
 
@@ -204,8 +206,16 @@ def _drive(data, cuts, validate, quitonerror, parsed, handler, labelmsm=1, maxst
     from spec.streams import FaultyStream
     st = FaultyStream(data, cuts)
     calls = []
-    rd = RTCMReader(st, validate=validate, quitonerror=quitonerror, parsed=parsed, labelmsm=labelmsm,
-                    errorhandler=(lambda e: calls.append(type(e).__name__)) if handler else None)
+
+    class FalsyHandler(list):  # a callable collector that is empty, hence falsy, when the reader consults it
+        def __call__(self, e):
+            calls.append(type(e).__name__)
+    h = None
+    if handler == "falsy":
+        h = FalsyHandler()
+    elif handler:
+        h = lambda e: calls.append(type(e).__name__)  # noqa: E731
+    rd = RTCMReader(st, validate=validate, quitonerror=quitonerror, parsed=parsed, labelmsm=labelmsm, errorhandler=h)
     events = []
     maxsteps = maxsteps or (len(data) + 10)
     for _ in range(maxsteps):
@@ -238,6 +248,8 @@ def reader_safety(inp):
     for ev in events:
         if ev[0] == "nonterminating":
             return {"fails": True, "expected": "iteration finishes", "observed": "no end of data after len+10 reads"}
+        if ev[0] == "raise" and ev[1] == "ReadBudgetExceeded":
+            return {"fails": True, "expected": "iteration over a finite stream finishes", "observed": "read() called without end on an exhausted stream"}
         if ev[0] == "raise":
             if ev[1] not in LIBS or q != 2:
                 return {"fails": True, "expected": "no exception" if q != 2 else "library error", "observed": f"{ev[1]} (quitonerror={q})"}
@@ -527,7 +539,7 @@ def chunked(inp):
     cuts = sorted(set(c for c in inp.get("cuts", []) if 0 < c < len(enc)))
     segs = [b - a for a, b in zip([0] + cuts, cuts + [len(enc)])]
     sock = make_socket(enc, segs)
-    w = SocketWrapper(sock, encoding=1 | comp, bufsize=len(enc) + 10)
+    w = SocketWrapper(sock, encoding=1 | comp, bufsize=inp.get("bufsize") or (len(enc) + 10))
     got = b""
     want = b"".join(bodies)
     for _ in range(len(enc) + len(want) + 10):
